@@ -38,6 +38,7 @@ SB    == E.ev = "sbegin"    /\ Step(P!QSampleBegin(mon))
 Sm    == E.ev = "sample"    /\ Step(P!QSample(mon, E.s, E.d, E.q, E.p))
 SP    == E.ev = "spanic"    /\ Step(P!QSamplePanic(mon))
 Bk    == E.ev = "bulk"      /\ Step(P!QBulk(mon, E.okn, E.deln))
+DLat  == E.ev = "droplat"   /\ Step(P!QDropLatency(mon, E.n, E.min))
 Lat   == E.ev = "latency"   /\ Step(P!QLatency(mon, E.nref, E.minref, E.nok, E.minok))
 Qu    == E.ev = "quiesce"   /\ Step(P!QQuiesce(mon, E.s, E.d, E.q, E.p))
 End   == E.ev = "end"       /\ Step(P!QEnd(mon, E.released, E.exited))
@@ -45,7 +46,7 @@ End   == E.ev = "end"       /\ Step(P!QEnd(mon, E.released, E.exited))
 Skip  == E.ev \in {"hook", "note", "abandon", "step"} /\ Step(mon)
 
 Next == l <= Len(Rec) /\ (Reset \/ ECall \/ ERet \/ EPan \/ EHang \/ WEnt \/ WOt \/ WLv \/ EH \/ Cl \/ DB \/ DE \/ DH
-                          \/ WD \/ SB \/ Sm \/ SP \/ Bk \/ Lat \/ Qu \/ End \/ Skip)
+                          \/ WD \/ SB \/ Sm \/ SP \/ Bk \/ Lat \/ DLat \/ Qu \/ End \/ Skip)
 Spec == Init /\ [][Next]_vars
 
 Verdict == l = Len(Rec) + 1 =>
